@@ -421,7 +421,7 @@ static int ec_buffer(char *loc, char *cmd, char *arg, char *txt)
 		/* reassign buffer ids */
 		bufs_number();
 	} else {
-		int id = arg[0] ? atoi(arg) : 0;
+		long id = arg[0] ? ex_num(arg) : 0;
 		int idx = -1;
 		/* switch to the given buffer */
 		if (isdigit((unsigned char) arg[0])) {	/* buffer id given */
